@@ -44,7 +44,15 @@ type StringDecoder interface {
 //
 // Most of the heavy lifting is handled by the mapstructure library. A custom decoder is used to handle
 // decoding string values to the supported primitives.
-func Decode(input interface{}, output interface{}) error {
+func Decode(input interface{}, output interface{}) (err error) {
+	// mapstructure panics on some inputs (e.g. a NaN key in a map[interface{}]interface{}, or a nil map
+	// decoded into a map with another element type): malformed input is reported as an error
+	defer func() {
+		if r := recover(); r != nil {
+			err = fmt.Errorf("failed to decode input: %v", r)
+		}
+	}()
+
 	decoder, err := mapstructure.NewDecoder(
 		&mapstructure.DecoderConfig{ //nolint: exhaustruct
 			Result:     output,
